@@ -152,6 +152,29 @@ func (e *env) fnIn(file, name string) *ast.FuncDecl {
 	return nil
 }
 
+// fnRecv finds the method name of the receiver type recv (pointer or value) in the given file.
+func (e *env) fnRecv(file, recv, name string) *ast.FuncDecl {
+	f, ok := e.files[file]
+	if !ok {
+		fail("file %s not found", file)
+	}
+	for _, d := range f.Decls {
+		fd, ok := d.(*ast.FuncDecl)
+		if !ok || fd.Name.Name != name || fd.Body == nil || fd.Recv == nil || len(fd.Recv.List) != 1 {
+			continue
+		}
+		t := fd.Recv.List[0].Type
+		if st, ok := t.(*ast.StarExpr); ok {
+			t = st.X
+		}
+		if id, ok := t.(*ast.Ident); ok && id.Name == recv {
+			return fd
+		}
+	}
+	fail("method %s.%s not found in %s", recv, name, file)
+	return nil
+}
+
 // secondsIn finds  time.Second*N / time.Second * N  inside calls to the given callee within fn.
 func (e *env) secondsIn(fnName, callee string) int64 {
 	fd := e.fn(fnName)
@@ -909,6 +932,65 @@ func (e *env) writeCode(outdir string) {
 	if count["c.closeSent"] != 1 || count["c.writeHeader.rsv1"] != 2 || count["c.writeHeader.masked"] != 1 {
 		fail("writeFrame: unexpected further assignments to closeSent / rsv1 / masked: %v", count)
 	}
+	// msgWriter.Write: when compression is switched on for the message
+	mwf := e.fnRecv("write.go", "msgWriter", "Write")
+	wa := atoms{w: "msgWriter.Write", b: map[string]string{"mw.c.flate()": "negotiated"}, z: map[string]string{"mw.opcode": "opcode", "len(p)": "len", "mw.c.flateThreshold": "thr"}}
+	enable := ""
+	for _, st := range mwf.Body.List {
+		is, ok := st.(*ast.IfStmt)
+		if !ok || is.Init != nil || is.Else != nil || exprKey(is.Cond) != "mw.c.flate()" {
+			continue
+		}
+		if len(is.Body.List) != 1 {
+			fail("msgWriter.Write: the body of `if mw.c.flate()` is not a single statement")
+		}
+		in, ok := is.Body.List[0].(*ast.IfStmt)
+		if !ok || in.Init != nil || in.Else != nil || len(in.Body.List) != 1 {
+			fail("msgWriter.Write: expected one conditional call of ensureFlate inside `if mw.c.flate()`")
+		}
+		es, ok := in.Body.List[0].(*ast.ExprStmt)
+		if !ok || exprKey(es.X) != "mw.ensureFlate()" || enable != "" {
+			fail("msgWriter.Write: expected one conditional call of ensureFlate inside `if mw.c.flate()`")
+		}
+		enable = fmt.Sprintf("(andb %s %s)", e.aCond(is.Cond, wa), e.aCond(in.Cond, wa))
+	}
+	calls := 0
+	ast.Inspect(mwf, func(n ast.Node) bool {
+		if ce, ok := n.(*ast.CallExpr); ok && exprKey(ce) == "mw.ensureFlate()" {
+			calls++
+		}
+		return true
+	})
+	if enable == "" || calls != 1 {
+		fail("msgWriter.Write: the decision to call ensureFlate was not found exactly once (%d calls)", calls)
+	}
+	fmt.Fprintf(&c, "(* msgWriter.Write: compression is switched on for the message by this Write *)\nDefinition gen_enable_flate (negotiated : bool) (opcode len thr : Z) : bool :=\n  %s.\n\n", enable)
+
+	// newConn: the default compression threshold
+	nc := e.fnIn("conn.go", "newConn")
+	ta := atoms{w: "newConn", b: map[string]string{"c.flate()": "negotiated", "c.msgWriter.flateContextTakeover()": "takeover"}, z: map[string]string{"c.flateThreshold": "thr0"}}
+	thr := ""
+	for _, st := range nc.Body.List {
+		is, ok := st.(*ast.IfStmt)
+		if !ok || is.Init != nil || is.Else != nil || len(is.Body.List) != 2 {
+			continue
+		}
+		a0, ok0 := is.Body.List[0].(*ast.AssignStmt)
+		in, ok1 := is.Body.List[1].(*ast.IfStmt)
+		if !ok0 || !ok1 || len(a0.Lhs) != 1 || exprKey(a0.Lhs[0]) != "c.flateThreshold" || in.Init != nil || in.Else != nil || len(in.Body.List) != 1 {
+			continue
+		}
+		a1, ok2 := in.Body.List[0].(*ast.AssignStmt)
+		if !ok2 || len(a1.Lhs) != 1 || exprKey(a1.Lhs[0]) != "c.flateThreshold" {
+			continue
+		}
+		thr = fmt.Sprintf("if %s then (if %s then %s else %s) else thr0", e.aCond(is.Cond, ta), e.aCond(in.Cond, ta), e.azExpr(a1.Rhs[0], atoms{w: "newConn"}), e.azExpr(a0.Rhs[0], atoms{w: "newConn"}))
+	}
+	if thr == "" {
+		fail("newConn: the default of flateThreshold was not found in the expected shape")
+	}
+	fmt.Fprintf(&c, "(* newConn: the effective compression threshold for a configured threshold thr0 *)\nDefinition gen_flate_threshold (negotiated : bool) (thr0 : Z) (takeover : bool) : Z :=\n  %s.\n\n", thr)
+
 	fmt.Fprintf(&c, "(* a frame that is refused (nothing written) because a Close frame has been written *)\nDefinition gen_refused_after_close (close_sent : bool) (opcode : Z) : bool :=\n  %s.\n\n", refused)
 	fmt.Fprintf(&c, "(* a frame that sets the close-sent flag (checked above, set after the check) *)\nDefinition gen_sets_close_sent (opcode : Z) : bool :=\n  %s.\n\n", sets)
 	fmt.Fprintf(&c, "(* the RSV1 bit and the MASK bit of the header *)\nDefinition gen_rsv1 (flate : bool) (opcode : Z) : bool :=\n  %s.\nDefinition gen_masked (client : bool) : bool :=\n  %s.\n", rsv1, masked)
